@@ -2,11 +2,11 @@
 use crate::util::*;
 use geometry3d::round_error::{self, ApproxFloat};
 
-pub const OPS: [&str; 24] = [
+pub const OPS: [&str; 25] = [
     "neg", "add", "add_f", "sub", "sub_f", "mul", "mul_f", "div", "div_f", "add_assign",
     "add_assign_f", "sub_assign", "sub_assign_f", "mul_assign", "mul_assign_f", "div_assign",
     "div_assign_f", "sqrt", "from_value_and_error", "midpoint", "absolute_error",
-    "next_float_up", "next_float_down", "max_min",
+    "next_float_up", "next_float_down", "max_min", "from_bounds",
 ];
 
 pub fn apply(op: usize, a: ApproxFloat, b: ApproxFloat) -> (Float, Float) {
@@ -39,6 +39,17 @@ pub fn apply(op: usize, a: ApproxFloat, b: ApproxFloat) -> (Float, Float) {
         23 => { let (mx, mn) = round_error::max_min(&[a.low, a.high, b.low, b.high]); (mn, mx) }
         _ => unreachable!(),
     }
+}
+
+/// op 24: ApproxFloat::from_bounds(low, high) under `catch`; out = [low, high, panicked, debug build]
+fn from_bounds_case(al: Float, ah: Float, bl: Float, bh: Float) -> (String, String) {
+    let dbg: Float = if cfg!(debug_assertions) { 1.0 } else { 0.0 };
+    let (out, panicked) = match catch(move || ApproxFloat::from_bounds(al, ah)) {
+        Ok(x) => (vec![x.low, x.high, 0.0, dbg], false),
+        Err(_) => (vec![0.0, 0.0, 1.0, dbg], true),
+    };
+    (format!("(24%N, {}, {})", sfs(&[al, ah, bl, bh]), sfs(&out)),
+     format!("{{\"op\":\"from_bounds\",\"opn\":24,\"in\":{},\"out\":{},\"panicked\":{},\"debug\":{}}}", jfs(&[al, ah, bl, bh]), jfs(&out), panicked, cfg!(debug_assertions)))
 }
 
 /// an interval around `c`
@@ -90,6 +101,13 @@ pub fn run(seed: u64, n: usize, out: &str) {
             let m = if r.chance(0.5) { -m } else { m };
             match r.below(3) { 0 => { bl = m; bh = m; } 1 => { if m > 0.0 { bl = m; bh = m * 2.0 } else { bl = m * 2.0; bh = m } } _ => { bl = m; bh = m } }
         }
+        if op == 24 {
+            // from_bounds: also NaN bounds and inverted bounds (its debug_assert!(high >= low))
+            match r.below(12) { 0 => { ah = Float::NAN; } 1 => { al = Float::NAN; } 2 | 3 => { std::mem::swap(&mut al, &mut ah); } _ => {} }
+            let (c, j) = from_bounds_case(al, ah, bl, bh);
+            sink.push(c, j);
+            continue;
+        }
         let a = ApproxFloat { low: al, high: ah };
         let b = ApproxFloat { low: bl, high: bh };
         let (rl, rh) = apply(op, a, b);
@@ -105,6 +123,7 @@ pub fn run(seed: u64, n: usize, out: &str) {
 pub fn replay(args: &[String]) {
     let op: usize = args[0].parse().unwrap();
     let v: Vec<Float> = args[1..5].iter().map(|s| Float::from_bits(s.parse().unwrap())).collect();
+    if op == 24 { println!("{}", from_bounds_case(v[0], v[1], v[2], v[3]).1); return; }
     let (rl, rh) = apply(op, ApproxFloat { low: v[0], high: v[1] }, ApproxFloat { low: v[2], high: v[3] });
     println!("{{\"op\":\"{}\",\"opn\":{},\"in\":{},\"out\":{}}}", OPS[op], op, jfs(&v), jfs(&[rl, rh]));
     println!("# {} [{:e},{:e}] [{:e},{:e}] -> [{:e},{:e}]", OPS[op], v[0], v[1], v[2], v[3], rl, rh);
